@@ -4,6 +4,8 @@ proof:   AQ.Props.C01       one directed stream end to end (prefix, exactly-once
                             conservation, bounded progress, fuel-bounded fair schedule `c01_liveness_bounded_partial`)
          AQ.Props.C01Multi  the connection's stream table: every per-stream theorem for every stream under any
                             interleaving, discard rule, service queue
+         AQ.Props.C01Loss   loss detection is complete (recovery model of C08): packet / time threshold on an
+                            ACK, the loss timer and the PTO probe report what must be reported
          AQ.Props.C01Keys   1-RTT key-update bookkeeping: generations differ by at most one, the current
                             generation is always readable, counterexamples for the two pre-fix behaviours
 tie:     per directed stream of every simulated connection the op sequence (write / emit / deliver / ack / lose /
@@ -644,7 +646,7 @@ def check_pairs(ctx, thorough):
 def main(tier):
     ctx = core.Ctx("C01", tier)
     tree.activate()
-    ctx.prove(["AQ.Props.C01", "AQ.Props.C01Multi", "AQ.Props.C01Keys"], [])
+    ctx.prove(["AQ.Props.C01", "AQ.Props.C01Multi", "AQ.Props.C01Keys", "AQ.Props.C01Loss"], [])
     ctx.cov["trusted_base"] = [
         "Lean 4.33.0 kernel (+ leanchecker in thorough tier)",
         "axioms: subset of {propext, Classical.choice, Quot.sound} (audited by #print axioms)",
